@@ -184,6 +184,8 @@ def oracle_end(c04, sc, res, evs):
 
 def run(ctx, c04):
     """returns (proof result, correspondence failures, oracle failures) in c04.verdict's formats"""
+    import time
+    t_start = time.time()
     rng = ctx.rng.fork()
     quick = ctx.tier == "quick"
     pr = ctx.coq_properties("Properties/Properties_C04_progress.v")
@@ -259,7 +261,7 @@ def run(ctx, c04):
     ctx.cov["progress"] = dict(
         runs=st["runs"], quiescent_ok_holds=st["quiescent_ok"], model_labels_accepted=st["labels"], failed_spawns_injected=st["failed_spawns"],
         tasks_taken_from_another_shepherds_queue=st["steals"], runs_with_steal_or_failed_spawn=st["nontrivial"], profiles=st["profiles"],
-        max_wait_for_pool_balance_ms=st["waited_ms_max"], samples=st["samples"],
+        max_wait_for_pool_balance_ms=st["waited_ms_max"], samples=st["samples"], wall_s=round(time.time() - t_start, 2),
         rule="every run: kernel acceptor + extracted quiescent_ok on the final kernel state and the white-box queue observations; "
              "non-trivial = at least one task dequeued by a shepherd other than the one it was enqueued on, or a failed spawn")
     ctx.assumptions += ["progress theorems: executions without qthread_disable_shepherd / qthread_yield_near; blocked tasks are released by the "
